@@ -134,6 +134,11 @@ void vrt_fiber_setup(void) {
     vrt_reg_obj(nm, vrt_running_slot(i), 8, run, 1);
   }
   vrt_wb_register_schedulers();
+  /* VRT_YIELD_PRESET=n: start every manager's yield counter at n so that the "every 1024th yield"
+     load balancing inside fiber_manager_yield happens within a short scenario */
+  long yp = vrt_getenv_int("VRT_YIELD_PRESET", -1);
+  if (yp >= 0)
+    for (int i = 0; i < n; i++) vrt_wb_manager(i)->yield_count = (uint64_t)yp;
   vrt_wb_register_fiber_statics();
   static const char* secs[] = {"wsd_work_stealing_deque_push_bottom", "wsd_work_stealing_deque_pop_bottom",
                                "wsd_work_stealing_deque_steal", "wsd_work_stealing_deque_size"};
